@@ -38,8 +38,11 @@ func (w *worker[T]) Do(ctx context.Context, r func(WorkItemResult[T]), wrk WorkI
 
 	if ctx.Err() != nil {
 		err = ctx.Err()
+		verifPoint("wk.ctxerr", w.Name)
 	} else {
+		verifPoint("wk.ctxok", w.Name)
 		data, err = runWorkItem(ctx, wrk)
+		verifPoint("wk.ran", w.Name)
 	}
 
 	r(WorkItemResult[T]{
@@ -52,7 +55,9 @@ func (w *worker[T]) Do(ctx context.Context, r func(WorkItemResult[T]), wrk WorkI
 	// put itself back on the queue when done
 	select {
 	case w.Queue <- w:
+		verifPoint("wk.put", w.Name)
 	default:
+		verifPoint("wk.put-dropped", w.Name)
 	}
 }
 
@@ -123,15 +128,23 @@ func NewWorkerGroup[T any](workers int, queue int) *WorkerGroup[T] {
 func (wg *WorkerGroup[T]) Do(ctx context.Context, w WorkItem[T], group int) error {
 
 	if ctx.Err() != nil {
+		verifPoint("do.ctxerr", group)
 		return fmt.Errorf("%w; work not added to queue", ErrContextCancelled)
 	}
 
+	verifPoint("do.ctxok", group)
+
 	wg.stopMu.RLock()
+	verifPoint("do.rlock", group)
+	defer verifPoint("do.runlocked", group)
 	defer wg.stopMu.RUnlock()
 
 	if wg.queueClosed.Load() {
+		verifPoint("do.closed", group)
 		return fmt.Errorf("%w; work not added to queue", ErrProcessStopped)
 	}
+
+	verifPoint("do.open", group)
 
 	gi := GroupedItem[T]{
 		Group: group,
@@ -150,10 +163,13 @@ func (wg *WorkerGroup[T]) Do(ctx context.Context, w WorkItem[T], group int) erro
 
 	select {
 	case wg.input <- gi:
+		verifPoint("do.sent", group)
 		return nil
 	case <-ctx.Done():
+		verifPoint("do.selctx", group)
 		return fmt.Errorf("%w; work not added to queue", ErrContextCancelled)
 	case <-wg.svcChStop:
+		verifPoint("do.selstop", group)
 		return fmt.Errorf("%w; work not added to queue", ErrProcessStopped)
 	}
 }
@@ -180,11 +196,14 @@ func (wg *WorkerGroup[T]) Results(group int) []WorkItemResult[T] {
 	resultData, ok := wg.resultData[group]
 	if !ok {
 		wg.resultData[group] = []WorkItemResult[T]{}
+		verifPoint("res.take", group, 0)
 
 		return wg.resultData[group]
 	}
 
 	wg.resultData[group] = []WorkItemResult[T]{}
+
+	verifPoint("res.take", group, len(resultData))
 
 	// results are stored as latest first
 	// switch the order to provide oldest first
@@ -210,18 +229,26 @@ func (wg *WorkerGroup[T]) Stop() {
 		// release every Do that is blocked on the input channel, wait for the
 		// ones that are handing an item over, then refuse all later calls
 		close(wg.svcChStop)
+		verifPoint("stop.closed")
 		wg.stopMu.Lock()
+		verifPoint("stop.locked")
 		wg.queueClosed.Store(true)
+		verifPoint("stop.set")
 		wg.stopMu.Unlock()
+		verifPoint("stop.unlocked")
 		wg.chStopInputs <- struct{}{}
+		verifPoint("stop.sent")
 	})
 }
 
 func (wg *WorkerGroup[T]) processQueue() {
 	for {
 		if wg.queue.Len() == 0 {
+			verifPoint("pq.empty")
 			break
 		}
+
+		verifPoint("pq.nonempty")
 
 		value, err := wg.queue.Pop()
 
@@ -229,8 +256,11 @@ func (wg *WorkerGroup[T]) processQueue() {
 		// the length check above should protect from that, but just in case
 		// this error also breaks the loop
 		if err != nil {
+			verifPoint("pq.pop-err")
 			break
 		}
+
+		verifPoint("pq.popped", value.Group)
 
 		wg.doJob(value)
 	}
@@ -240,28 +270,37 @@ func (wg *WorkerGroup[T]) runQueuing() {
 	for {
 		select {
 		case item := <-wg.input:
+			verifPoint("rq.recv", item.Group)
 			wg.queue.Add(item)
+			verifPoint("rq.added")
 
 			// notify that new work item came in
 			// drop if notification channel is full
 			select {
 			case wg.chInputNotify <- struct{}{}:
+				verifPoint("rq.notified")
 			default:
+				verifPoint("rq.notify-full")
 			}
 		case <-wg.chStopInputs:
+			verifPoint("rq.stop")
 			// an item accepted by Do just before the stop may still sit in the
 			// input channel; queue it so that its result is delivered and the
 			// caller waiting for it returns
 			for {
 				select {
 				case item := <-wg.input:
+					verifPoint("rq.drain-recv", item.Group)
 					wg.queue.Add(item)
+					verifPoint("rq.drain-added")
 					continue
 				default:
+					verifPoint("rq.drain-empty")
 				}
 				break
 			}
 			wg.chStopProcessing <- struct{}{}
+			verifPoint("rq.stopsent")
 			return
 		}
 	}
@@ -273,8 +312,10 @@ func (wg *WorkerGroup[T]) runProcessing() {
 		// watch notification channel and begin processing queue
 		// when notification occurs
 		case <-wg.chInputNotify:
+			verifPoint("rp.notify")
 			wg.processQueue()
 		case <-wg.chStopProcessing:
+			verifPoint("rp.stop")
 			return
 		}
 	}
@@ -304,9 +345,11 @@ func (wg *WorkerGroup[T]) doJob(item GroupedItem[T]) {
 			Queue: wg.workers,
 		}
 		wg.activeWorkers++
+		verifPoint("dj.new", wkr.Name, item.Group)
 	} else {
 		// wait for a worker to be available
 		wkr = <-wg.workers
+		verifPoint("dj.reuse", wkr.Name, item.Group)
 	}
 
 	// have worker do the work
@@ -336,7 +379,9 @@ func (wg *WorkerGroup[T]) storeResult(group int) func(result WorkItemResult[T]) 
 
 		select {
 		case wg.resultNotify[group] <- struct{}{}:
+			verifPoint("sr.notified", result.Worker, group)
 		default:
+			verifPoint("sr.notify-full", result.Worker, group)
 		}
 	}
 }
@@ -349,17 +394,22 @@ func RunJobs[T, K any](ctx context.Context, wg *WorkerGroup[T], jobs []K, jobFun
 	end := make(chan struct{}, 1)
 
 	group := rand.Intn(1_000_000_000)
+	verifPoint("rj.start", group, len(jobs), ctx)
 
 	go func(g *WorkerGroup[T], w *sync.WaitGroup, ch chan struct{}) {
 		for {
 			select {
 			case <-g.NotifyResult(group):
+				verifPoint("rd.notify", group)
 				//fmt.Println("NotifyResult")
 				for _, r := range g.Results(group) {
 					resFunc(r.Data, r.Err)
 					w.Done()
+					verifPoint("rd.done", group, r.Worker)
 				}
+				verifPoint("rd.batchend", group)
 			case <-ch:
+				verifPoint("rd.end", group)
 				return
 			}
 		}
@@ -367,23 +417,30 @@ func RunJobs[T, K any](ctx context.Context, wg *WorkerGroup[T], jobs []K, jobFun
 
 	for _, job := range jobs {
 		wait.Add(1)
+		verifPoint("rj.add", group)
 
 		if err := wg.Do(ctx, makeJobFunc(ctx, job, jobFunc), group); err != nil {
 			// the makeJobFunc will exit early if the context passed to it has
 			// already completed or if the worker process has been stopped
 			wait.Done()
+			verifPoint("rj.done", group)
 			break
 		}
 	}
 
+	verifPoint("rj.loopend", group)
+
 	// wait for all results to be read
 	wait.Wait()
+	verifPoint("rj.waited", group)
 
 	// clean up run group resources
 	wg.RemoveGroup(group)
+	verifPoint("rj.removed", group)
 
 	// close the results reader process to clean up resources
 	close(end)
+	verifPoint("rj.closed", group)
 }
 
 func makeJobFunc[T, K any](jobCtx context.Context, value T, jobFunc JobFunc[T, K]) WorkItem[K] {
